@@ -105,6 +105,17 @@ where
         self.cells.clear();
     }
 
+    /// Verification hook (`--cfg delaunay_verif` only): every key currently stored in the index,
+    /// stale ones included. Used by the conformance harness to compare the cache contents with
+    /// the TLA+ cache model.
+    #[cfg(delaunay_verif)]
+    pub(in crate::core) fn verif_keys(&self) -> Vec<K> {
+        self.cells
+            .values()
+            .flat_map(|bucket| bucket.iter().copied())
+            .collect()
+    }
+
     const fn disable(&mut self) {
         self.usable = false;
     }
